@@ -23,6 +23,8 @@ func main() {
 		os.Exit(workerMain(os.Args[2:]))
 	case "replay":
 		os.Exit(replayMain(os.Args[2:]))
+	case "digest":
+		os.Exit(digestMain(os.Args[2:]))
 	case "dump":
 		os.Exit(dumpMain(os.Args[2:]))
 	case "runone":
